@@ -252,6 +252,17 @@ func c14Run(ci any) Result {
 		// any method may carry a body (the limit is not a property of POST)
 		req := httptest.NewRequest(http.MethodPost, path, nil)
 		req.Method = c14Methods[(len(rq.Chunks)+len(rq.Reads)+int(rq.Declared+1))%len(c14Methods)]
+		switch (len(rq.Chunks) + 2*len(rq.Reads)) % 5 {
+		case 0: // request headers that look like something else: the limit is about the body, whatever they say
+			req.Header.Set("Upgrade", "websocket")
+			req.Header.Set("Connection", "Upgrade")
+		case 1:
+			req.Header.Set("Content-Type", "multipart/form-data; boundary=x")
+			req.Header.Set("Expect", "100-continue")
+		case 2:
+			req.Header.Set("Content-Encoding", "gzip")
+			req.Header.Set("Transfer-Encoding", "chunked")
+		}
 		req = req.WithContext(context.WithValue(req.Context(), c14Key{}, st))
 		req.Body = rd
 		req.ContentLength = rq.Declared
